@@ -187,7 +187,7 @@ class ParameterList(object):
         elif key == "model.rel_tol":
             type_str, nonetype_ok, lower, upper = 'float', False, 0.0, 1.0
         elif key == "slow.history_for_slow":
-            type_str, nonetype_ok, lower, upper = 'int', False, 0, None
+            type_str, nonetype_ok, lower, upper = 'int', False, 1, None
         elif key == "slow.thresh_for_slow":
             type_str, nonetype_ok, lower, upper = 'float', False, 0, None
         elif key == "slow.max_slow_iters":
@@ -273,7 +273,7 @@ class ParameterList(object):
         elif key == "dykstra.d_tol":
             type_str, nonetype_ok, lower, upper = 'float', False, 0.0, None
         elif key == "dykstra.max_iters":
-            type_str, nonetype_ok, lower, upper = 'int', False, 0, None
+            type_str, nonetype_ok, lower, upper = 'int', False, 1, None
         elif key == "matrix_rank.r_tol":
             type_str, nonetype_ok, lower, upper = 'float', False, 0.0, None
         elif key == "func_tol.criticality_measure":
@@ -281,7 +281,7 @@ class ParameterList(object):
         elif key == "func_tol.tr_step":
             type_str, nonetype_ok, lower, upper = 'float', False, 0.0, 1.0
         elif key == "func_tol.max_iters":
-            type_str, nonetype_ok, lower, upper = 'int', False, 0, None
+            type_str, nonetype_ok, lower, upper = 'int', False, 1, None
         elif key == "sfista.max_iters_scaling":
             type_str, nonetype_ok, lower, upper = 'float', False, 1.0, None
         else:
